@@ -326,9 +326,11 @@ class Incarnation:
             return self.prefetched.pop(op["id"])
         if op.get("transient") and not op.get("pobj"):
             return self._make_transient_params(op["params"], op.get("leaf", "float"), op["transient"])
-        key = op.get("pobj") or f"auto:{op['params']}:{op.get('leaf', 'float')}"
+        key = op.get("pobj") or f"auto:{op['params']}:{op.get('leaf', 'float')}:{op.get('pshuffle', 0)}"
         if key not in self.params_objs:
             vals = self.plan["params"][op["params"]]["values"]
+            if op.get("pshuffle") and not op.get("pobj"):
+                vals = _shuffled_keys(vals, random.Random(op["pshuffle"]))  # same content, keys inserted in another order
             obj = self._build_params(vals, op.get("leaf", "float"), self.plan["params"][op["params"]].get("shocks_dtype", "float64"))
             self.params_objs[key] = obj
             # the caller keeps its own references to the nested containers it built
@@ -532,7 +534,7 @@ class Incarnation:
         model = self.models[h["model"]][0] if h["model"] in self.models else None
         s_before = (snap(params), snap_model(model))
         try:
-            res = h["f"](params)
+            res = h["f"](params=params) if op.get("kw") else h["f"](params)
             arrs = [np.asarray(a) for a in res]
         finally:
             s_after = (snap(params), snap_model(model))
@@ -617,7 +619,7 @@ class Incarnation:
             del lv
         s_before = (snap(params), snap(batch), snap(vf), snap_model(model))
         try:
-            df = h["f"](params, **kwargs)
+            df = h["f"](params=params, **kwargs) if op.get("kw") else h["f"](params, **kwargs)
             fd = frame_to_dict(df)
         finally:
             s_after = (snap(params), snap(batch), snap(vf), snap_model(model))
@@ -774,6 +776,14 @@ class Incarnation:
 
 class _Skip(Exception):
     pass
+
+
+def _shuffled_keys(d, rng):
+    if not isinstance(d, dict):
+        return d
+    ks = list(d)
+    rng.shuffle(ks)
+    return {k: _shuffled_keys(d[k], rng) for k in ks}
 
 
 def _layout(arr, form):
